@@ -6,7 +6,7 @@
 # /tmp/mut-harness (copy of /verif/harness with path deps redirected, own target dir).
 set -e
 PATCH="$1"; shift
-R=/tmp/mut-repo; V=/tmp/mutw; H=$V/harness
+S="${MUT_SUFFIX:-}"; R=/tmp/mut-repo$S; V=/tmp/mutw$S; H=$V/harness
 if [ ! -d "$R" ]; then git -C /repo worktree add -q --detach "$R" HEAD; fi
 git -C "$R" checkout -q --detach "$(git -C /repo rev-parse HEAD)" 2>/dev/null || true
 git -C "$R" checkout -q -- . ; git -C "$R" clean -fdq -e target
